@@ -110,6 +110,12 @@ def reference_check(ctx):
         if a is None or (isinstance(c["list"], str) and not c["list"].startswith("synth ")):
             continue
         order, titles, rest = wlgen.parse_pre(a)
+        if order is None and (a.startswith("panic") or "HARNESS-FAILURE" in a) and c["length"] >= 1:
+            # the harness reads the list back before the measured generation: one one-word generation per index, the raw word being
+            # the index itself. If that already fails, some index of the list cannot be drawn with the one raw word that selects it
+            ctx.violations.append({"case": c["meta"], "line": wlgen.case_line(c), "observed": a[:200], "finding_key": "C04-index-injective",
+                                   "what": "a one-word generation whose raw word is a valid index of the list failed (%s): that word cannot be drawn from one raw word, the words are not equally likely" % a.split(" stdout=")[0][:60]})
+            return
         d = chargen.parse_password(rest)
         if d is None or d["outcome"] != "ok" or not order or order == "0":
             continue
